@@ -30,6 +30,7 @@ a violation — never a pass.
 import hashlib, io, json, os, re, subprocess, tarfile, threading, time
 import vlib
 import c12_tools
+import c12_census
 
 LEVEL = "proof"
 MODULE = "Sqfs.Props.C12"
@@ -39,8 +40,12 @@ REQUIRED = ["Sqfs.C12.read_at_spec", "Sqfs.C12.read_at_never_short", "Sqfs.C12.w
             "Sqfs.C12.get_line_chunking_independent", "Sqfs.C12.record_to_memory_spec",
             "Sqfs.C12.xfrm_istream_chunking_independent", "Sqfs.C12.xfrm_ostream_script_independent",
             "Sqfs.C12.tar_member_stream_chunking_independent", "Sqfs.C12.tar_member_run_chunking_independent",
-            "Sqfs.C12.tar_member_run_decompressed_chunking_independent"]
-WRAP = ["read", "write", "pread", "pwrite", "pread64", "pwrite64", "lseek", "lseek64", "ftruncate", "ftruncate64", "fsync"]
+            "Sqfs.C12.tar_member_run_decompressed_chunking_independent",
+            "Sqfs.C12.drain_compressed_stream_chunking_independent"]
+WRAP = ["read", "write", "pread", "pwrite", "pread64", "pwrite64", "lseek", "lseek64", "ftruncate", "ftruncate64", "fsync",
+        # tar_open_stream asks these two for the decompressor behind a magic: the harness answers with its toy decompressor,
+        # so that the real tar_open_stream takes its `compressed = true` branch (xtarstrm)
+        "xfrm_compressor_id_from_magic", "decompressor_stream_create"]
 ISTREAM_C = "lib/sqfs/src/io/istream.c"
 OSTREAM_C = "lib/sqfs/src/io/ostream.c"
 XISTREAM_C = "lib/xfrm/src/istream.c"
@@ -51,8 +56,16 @@ SMALL_B = [1, 7, 64]
 SMALL_BX = {1: (4, 2), 7: (16, 16), 64: (23, 9)}
 HARNESS_SRC = ["h_c12.c", "h_c12_peek_istream.c", "h_c12_peek_ostream.c", "h_c12_peek_xistream.c", "h_c12_peek_xostream.c",
                "h_c12_peek_tar.c"]
+# every place where the tree calls read/write/pread/pwrite/…/sendfile/copy_file_range (census from the clang AST on every
+# run) and the model function that describes its retry loop; a site that is not listed here has no model
+SYSCALL_SITES = {
+    "lib/sqfs/src/io/file.c:stdio_read_at:pread": "readAtLoop",
+    "lib/sqfs/src/io/file.c:stdio_write_at:pwrite": "writeAtLoop",
+    "lib/sqfs/src/io/ostream.c:write_all:write": "writeAllLoop",
+    "lib/sqfs/src/io/istream.c:precache:read": "precacheLoop",
+}
 FDTYPES = "npsft"        # what the stream descriptors of a harness process are: /dev/null, pipe, socket, regular file, pty
-LONG_BURSTS = [65, 66, 100, 130, 300]   # EINTR runs longer than any plausible retry cap (64, 100, 128, 256)
+LONG_BURSTS = [65, 66, 100, 130, 300, 1500]   # EINTR runs longer than any plausible retry cap (64, 100, 128, 256, 1000, 1024)
 def _const(name, default):
     """value of a generated constant (lean/Sqfs/Generated/Consts.lean is rewritten from the headers on every run)"""
     try:
@@ -298,9 +311,85 @@ def expand_member(record, filesize, sparse):
     return bytes(out)
 
 
+Z_MAGIC = 0xC1
+
+
+def z_decode(z):
+    """what the toy decompressor (harness z_process / model zProc) makes of a stream: (decoded bytes up to the first error,
+    damaged?) — damaged = wrong magic, length byte 0xFF, or the input ends anywhere but behind the end mark"""
+    if not z or z[0] != Z_MAGIC:
+        return b"", True
+    out, i = bytearray(), 1
+    while True:
+        if i >= len(z):
+            return bytes(out), True                  # truncated: no end mark
+        ln = z[i]
+        if ln == 0:
+            return bytes(out), False                 # end mark; what follows is ignored
+        if ln == 255:
+            return bytes(out), True
+        out += z[i + 1:i + 1 + ln]
+        if i + 1 + ln > len(z):
+            return bytes(out), True                  # truncated inside a block
+        i += 1 + ln
+
+
+def z_encode(rng, arch, marker_end, big):
+    """a stream of the toy compressor for `arch`, possibly truncated / damaged behind the first header block.
+    marker_end: offset in `arch` behind the end-of-archive marker (None when the archive has none).
+    Returns (stream, mode)."""
+    blocks, pos = [], 0                              # (archive offset, length)
+    while pos < len(arch):
+        ln = 254 if big and rng.random() < 0.95 else rng.choice([1, 2, 5, 100, 253, 254, rng.randint(1, 254)])
+        ln = min(ln, len(arch) - pos)
+        blocks.append((pos, ln))
+        pos += ln
+    def emit(upto=None, badlen_at=None):
+        out = bytearray([Z_MAGIC])
+        for k, (p, ln) in enumerate(blocks):
+            if upto is not None and k >= upto:
+                return out, False
+            if badlen_at == k:
+                out.append(255)
+                out += arch[p:p + min(ln, 3)]
+                return out, False
+            out.append(ln)
+            out += arch[p:p + ln]
+        if badlen_at == len(blocks):
+            out.append(255)
+            return out, False
+        return out, True
+    r = rng.random()
+    later = [k for k, (p, ln) in enumerate(blocks) if p >= 512]
+    behind = [k for k, (p, ln) in enumerate(blocks) if marker_end is not None and p >= marker_end] + \
+             ([len(blocks)] if marker_end is not None else [])
+    if r < 0.35 or not later:
+        out, _ = emit()
+        out.append(0)
+        if rng.random() < 0.3:
+            out += bytes(rng.randint(0, 255) for _ in range(rng.choice([1, 5, 6, 70, 600])))
+            return bytes(out), "ok+garbage"
+        return bytes(out), "ok"
+    if r < 0.55:
+        out, _ = emit()                               # everything but the end mark
+        return bytes(out), "no-end-mark"
+    if r < 0.7:
+        out, _ = emit()
+        lo = next(i for i in range(len(out) + 1) if len(z_decode(bytes(out[:i]))[0]) >= 512 or i == len(out))
+        cut = rng.randint(lo, len(out)) if rng.random() < 0.6 or not behind else \
+            rng.randint(min(len(out), lo + (marker_end - 512)), len(out))
+        return bytes(out[:max(cut, 1)]), "truncated"
+    k = rng.choice(behind) if behind and rng.random() < 0.6 else rng.choice(later + [len(blocks)])
+    out, _ = emit(badlen_at=k)
+    return bytes(out), "bad-length"
+
+
 def gen_tarstrm(rng, B, big, BX=None):
     """one archive member (plain or old-GNU sparse) read through the real tar iterator's member stream; with BX the
-    archive stream is the transforming istream (pass-through codec) on top of the file istream"""
+    input is a stream of the toy compressor (intact, with trailing garbage, without its end mark, truncated, or with a bad
+    length byte behind the first header block): the real tar_open_stream finds the magic, wraps the file istream into the
+    transforming istream around the toy decompressor and sets `compressed`, so that it_next drains the rest of the stream
+    at the end of the archive and reports the decompressor's error"""
     sparse = []
     if rng.random() < 0.6:
         # sorted, non-overlapping data regions; holes around the 4096-byte zero window of the member stream
@@ -325,8 +414,16 @@ def gen_tarstrm(rng, B, big, BX=None):
     else:
         body_len = recsize
         tail = rng.choice([b"", b"\0" * 1024, b"\0" * 100, b"\0" * 512, bytes([0, 0, 7, 0]) * 25, b"\0" * 1030])
-        if cut < 0.2:
+        if BX is not None and rng.random() < 0.5:
+            tail = b"\0" * 1024                                    # compressed input: mostly a complete end-of-archive marker
+        if cut < 0.2 and not (BX is not None and rng.random() < 0.6):
             pad, tail = rng.randint(0, pad), b""                  # the padding ends early
+    marker_end = None
+    if BX is not None and body_len == recsize and len(tail) >= 1024 and not tail[:1024].strip(b"\0"):
+        # what follows the end-of-archive marker is only ever read by drain_compressed_stream
+        marker_end = 512 + recsize + pad + 1024
+        tail = tail[:1024] + rng.choice([b"", b"", b"\0" * 6, bytes(rng.randint(0, 255) for _ in range(rng.choice([1, 30, 700]))),
+                                         b"\0" * 9216, bytes([1, 2, 3]) * rng.choice([100, 1500])])
     if body_len <= 64:
         body = hexdata(bytes(rng.randint(0, 255) for _ in range(body_len)))
     else:
@@ -347,9 +444,16 @@ def gen_tarstrm(rng, B, big, BX=None):
     sp = ",".join("%d:%d" % x for x in sparse) if sparse else "-"
     o = ",".join(ops)
     if BX is not None:
-        return {"kind": "xtarstrm", "B": B, "script": sc,
+        first = next((i for i, e in enumerate(sc) if e[0] != "i"), None)
+        if first is not None and sc[first][0] in "ez" and rng.random() < 0.85:
+            # a probe that fails sends tar_open_stream down the uncompressed path (outside the model): mostly let it succeed
+            sc = sc[:first] + ["p0"] + sc[first:]
+        z, zmode = z_encode(rng, parse_data(d), marker_end, big)
+        d = z.hex()
+        return {"kind": "xtarstrm", "B": B, "script": sc, "zmode": zmode,
                 "line": "xtarstrm %d %d %s %s %d %d %s %s %s" % (B, BX, fl, d, recsize, filesize, sp, o, script_tok(sc)),
                 "full": "xtarstrm %d %d %s %s %d %d %s %s -" % (B, BX, fl, d, recsize, filesize, sp, o),
+                "spec": "xtarspec %d %d %s %d %d %s %s" % (B, BX, d, recsize, filesize, sp, o),
                 "args": (d, recsize, filesize, sparse, ops)}
     return {"kind": "tarstrm", "B": B, "script": sc,
             "line": "tarstrm %d %s %s %d %d %s %s %s" % (B, fl, d, recsize, filesize, sp, o, script_tok(sc)),
@@ -370,6 +474,13 @@ def fixed_scenarios(B, small):
              "istream %d s 61620a63 L0,R2 %s" % (B, i200)]
     for b in small:
         lines.append("istream %d n 61620a630a6465 g0,L7,R1,L0 %s,p0,%s" % (b, i200, i200))
+    # one configuration (the build with the real buffer size) with runs of 1500: beyond a cap of 1000 / 1024 as well
+    i1500 = ",".join(["i"] * 1500)
+    lines += ["readat 0102030405 1 3 %s" % i1500,
+              "writeat 0102 1 aabbcc %s,p0,%s" % (i1500, i1500),
+              "ostream n d0102,h5,f %s" % i1500,
+              "ostream s d01,h2000,d02,f p0,%s" % i1500,
+              "istream %d s 61620a63 L0,R2 %s" % (B, i1500)]
     return lines
 
 
@@ -434,6 +545,7 @@ def observable(kind, out):
     o = TAIL.sub("", out)
     if kind in ("istream", "xistream", "tarstrm", "xtarstrm"):
         o = re.sub(r"x?st=\S+ ", "", o)
+        o = re.sub(r"z=1 ", "", o)               # tar->compressed: private (shown for the correspondence only)
         o = re.sub(r" size=\d+ sparse=\d+ pos=\d+", "", o)
     if kind in ("ostream", "xostream"):
         o = re.sub(r" size=\d+", "", o)          # `file->size` is write-only bookkeeping (double counts under NO_SPARSE)
@@ -503,10 +615,22 @@ def tar_monitor(sc, out):
     the expanded member content in order (data regions from the record, zeros in the holes), for every script; a
     read may fail or come up short only under a hard script or when the record is cut short"""
     d, recsize, filesize, sparse, ops = sc["args"]
-    data = parse_data(d)
+    data, damaged = parse_data(d), False
+    hard = is_hard(sc["script"])
+    if sc["kind"] == "xtarstrm":
+        if out.startswith("z=0"):
+            return []                            # probe failed: tar_open_stream reads the raw stream (outside the model)
+        # the archive as far as the toy decompressor delivers it; the transforming istream decodes ahead, so that with a
+        # damaged stream any call may already fail with SQFS_ERROR_COMPRESSOR — but what is delivered must be right
+        data, damaged = z_decode(data)
     toks = TAIL.sub("", out).split(" ")
+    if damaged and not hard and ("n1=1" in toks[:1] or "n2=1" in toks):
+        # independent re-computation of what drain_compressed_stream is for (/repo d69b61b): the end of the archive is
+        # never reported for a compressed input that is truncated or damaged, whatever the chunking
+        return ["end of archive reported although the compressed stream is truncated/damaged behind it"]
+    hard = hard or damaged
     if not toks or toks[0] != "n1=0":
-        if not is_hard(sc["script"]) and len(data) >= 512:
+        if not hard and len(data) >= 512:
             return ["it_next did not deliver the member header although no hard error was scripted: %s" % toks[:1]]
         return []
     record = data[512:512 + recsize]
@@ -524,11 +648,11 @@ def tar_monitor(sc, out):
             break
         n = int(m.group(1))
         if n < 0:
-            if not is_hard(sc["script"]) and avail_rec >= recsize:
+            if not hard and avail_rec >= recsize:
                 bad.append("member read failed (%d) although the record is complete and no hard error was scripted" % n)
             break
         exp = content[pos:pos + min(size, 0x7FFFFFFF)]
-        if m.group(2) != dtok(content[pos:pos + n]) or (n != len(exp) and not is_hard(sc["script"]) and avail_rec >= recsize):
+        if m.group(2) != dtok(content[pos:pos + n]) or (n != len(exp) and not hard and avail_rec >= recsize):
             bad.append("member read %s at offset %d returned %s, expected %d bytes %s" % (op, pos, tok, len(exp), dtok(exp)))
             break
         pos += n
@@ -699,6 +823,7 @@ def parse_line(l, B, small, bx):
                 return None
             sparse = [] if w[7] == "-" else [tuple(int(v) for v in e.split(":")) for e in w[7].split(",")]
             sc["args"] = (w[4], int(w[5]), int(w[6]), sparse, [] if w[8] == "-" else w[8].split(","))
+            sc["spec"] = "xtarspec %s %s %s %s %s %s %s" % (w[1], w[2], w[4], w[5], w[6], w[7], w[8])
         elif kind == "xistream":
             sc["spec"] = "xspec %s %s %s %s" % (w[1], w[2], w[4], w[5])
             if b not in bx or bx[b][0] != int(w[2]):
@@ -925,6 +1050,16 @@ def run(ctx):
     if not ok:
         ctx.violation("proof:C12", "proof obligations of C12 no longer check: " + " | ".join(problems)[:1500],
                       {"broken": problems, "theorems_file": "lean/Sqfs/Props/C12.lean"}, found_input=False)
+    # the premise "four read/write call sites, one modelled loop each": checked against the tree, not assumed
+    sites, nsrc, cand = c12_census.census(ctx)
+    unknown, gone = sorted(set(sites) - set(SYSCALL_SITES)), sorted(set(SYSCALL_SITES) - set(sites))
+    ctx.log("census of read/write/pread/pwrite/readv/…/sendfile/copy_file_range/splice call sites: %d C sources, %d mention a name, sites %s" % (
+        nsrc, len(cand), sites))
+    if unknown or gone:
+        raise vlib.CheckFailure("the read/write call sites of the tree are not the ones the C12 model describes: without a model %s; "
+                                "modelled but no longer in the tree %s (census from the clang AST over %d sources)" % (unknown, gone, nsrc))
+    ctx.cov["syscall_sites"] = {s: SYSCALL_SITES[s] for s in sites}
+    ctx.cov["syscall_census_sources"] = nsrc
     hs, B, small, bx = build_harnesses(ctx)
     ctx.log("istream BUFSZ of the working tree = %d; small-buffer variants %s" % (B, small))
     t0 = time.time()
@@ -961,12 +1096,36 @@ def run(ctx):
         for e in sc["script"][:used]:
             run = run + 1 if e == "i" else 0
             longest = max(longest, run)
+    # the compressed branch of tar_open_stream / drain_compressed_stream: what the xtarstrm scenarios really reached
+    zst = {"modes": {}, "compressed_set": 0, "unmodelled_probe_failed": 0, "end_of_archive_after_drain": 0,
+           "drain_reported_error": 0, "drain_reported_error_soft_script": 0}
+    for sc in done:
+        if sc["kind"] != "xtarstrm":
+            continue
+        zst["modes"][sc.get("zmode", "corpus")] = zst["modes"].get(sc.get("zmode", "corpus"), 0) + 1
+        if sc["impl"].startswith("z=0"):
+            zst["unmodelled_probe_failed"] += 1
+            continue
+        toks = TAIL.sub("", sc["impl"]).split(" ")
+        if "z=1" in toks:
+            zst["compressed_set"] += 1
+        if "n2=1" in toks or toks[0] == "n1=1":
+            zst["end_of_archive_after_drain"] += 1
+        arch, damaged = z_decode(parse_data(sc["args"][0]))
+        rs = sc["args"][1]
+        mend = 512 + rs + (512 - rs % 512) % 512 + 1024
+        # the decompressor delivered the whole archive incl. a complete end-of-archive marker, the stream is damaged behind
+        # it, and it_next answered with the decompressor's error: that error can only come from the drain
+        if damaged and len(arch) >= mend and not arch[mend - 1024:mend].strip(b"\0") and "n2=-%d" % ERR_COMPRESSOR in toks:
+            zst["drain_reported_error"] += 1
+            if not is_hard(sc["script"]):
+                zst["drain_reported_error_soft_script"] += 1
     nspec = sum(1 for sc in done if sc.get("specout") is not None)
     nlines = sum(1 for sc in done if sc.get("linesout") is not None)
     nfull = sum(1 for sc in done if sc.get("implfull") is not None)
     ctx.log("in-process: %d scenarios, %d with ≥1 scripted event consumed, %d events fired %s, longest EINTR run consumed %d, "
-            "%d vs own unperturbed run, %d vs ideal-stream spec, %d vs line scanner, %.1fs" % (
-                len(done), len(nontrivial), consumed, evhist, longest, nfull, nspec, nlines, t_in))
+            "%d vs own unperturbed run, %d vs ideal-stream spec, %d vs line scanner, compressed tar branch %s, %.1fs" % (
+                len(done), len(nontrivial), consumed, evhist, longest, nfull, nspec, nlines, zst, t_in))
     if not any(v["key"].startswith("crash:") for v in ctx.violations):
         # floors: a part of the check that evaluated nothing is a failure of the check, not a pass
         need = ["readat", "writeat", "ostream", "istream:B=%d" % B, "xistream:B=%d" % B, "xostream:B=%d" % B, "tarstrm:B=%d" % B,
@@ -975,7 +1134,10 @@ def run(ctx):
         lack = [k for k in need if kinds.get(k, 0) < (10 if ctx.quick() else 100)]
         lack += ["xistream (small buffers)"] if sum(kinds.get("xistream:B=%d" % b, 0) for b in small) < 200 else []
         lack += ["xostream (small buffers)"] if sum(kinds.get("xostream:B=%d" % b, 0) for b in small) < 200 else []
-        if lack or len(done) != len(scen) or min(evhist.values()) == 0 or longest < 200 or nspec < 500 or nlines < 50 \
+        if zst["compressed_set"] < (150 if ctx.quick() else 1500) or zst["drain_reported_error_soft_script"] < (8 if ctx.quick() else 100) \
+                or zst["end_of_archive_after_drain"] < (15 if ctx.quick() else 150):
+            lack.append("compressed branch of tar_open_stream / drain with an error: %s" % zst)
+        if lack or len(done) != len(scen) or min(evhist.values()) == 0 or longest < 1500 or nspec < 500 or nlines < 50 \
                 or nfull < 1000 or len(nontrivial) < len(done) // 2 or (ncorpus == 0 and (vlib.CORPUS / "C12").exists()):
             raise vlib.CheckFailure("in-process part evaluated too little: missing/too few %s; %d of %d scenarios evaluated; events %s; "
                                     "longest EINTR run %d; spec %d; lines %d; full %d; non-trivial %d; corpus %d" % (
@@ -1002,13 +1164,17 @@ def run(ctx):
                               "%s under %s (feed %s, drain %s, %s, shim seed %s): exit/sha256 %s differ from the unperturbed run's %s; stderr: %s" % (
                                   r["scenario"], cfg, r["feed"], r["drain"], "socket" if r["sock"] else "pipe", r["shim_seed"], r["pert"], r["base"], r["stderr"][-300:]),
                               {k: r[k] for k in ("scenario", "config", "feed", "drain", "shim_seed", "seed", "sock", "base", "pert")})
-    ctx.log("tool level: %d perturbed runs (%d with ≥1 short count/EINTR fired), %d differ, %d scenarios skipped, shim fired %s, %.1fs" % (
-        len(tres), sum(1 for r in tres if r["fired"] > 0), tbad, len(tskipped),
+    ctx.log("tool level: %d perturbed runs (%d with ≥1 short count/EINTR fired; %d on damaged inputs: exit status + diagnostics; %d with "
+            "regular-file stdin/stdout), %d differ, %d scenarios skipped, shim fired %s, %.1fs" % (
+        len(tres), sum(1 for r in tres if r["fired"] > 0), sum(1 for r in tres if r["fails"]),
+        sum(1 for r in tres if r["stdio"] and r["feed"] == 0 and r["drain"] == 0), tbad, len(tskipped),
         {op: {k: v for k, v in d.items() if k in ("short", "eintr")} for op, d in tagg.items()}, t_tools))
     ctx.cov.update({
         "tool_runs": len(tres),
         "tool_runs_with_perturbation_fired": sum(1 for r in tres if r["fired"] > 0),
         "tool_runs_differing": tbad,
+        "tool_runs_on_damaged_inputs": sum(1 for r in tres if r["fails"]),
+        "tool_runs_regular_file_stdio_perturbed": sum(1 for r in tres if r["stdio"] and r["feed"] == 0 and r["drain"] == 0 and r["fired"] > 0),
         "tool_scenarios": sorted({r["scenario"] for r in tres}),
         "tool_scenarios_skipped": tskipped,
         "shim_counters": tagg,
@@ -1024,6 +1190,7 @@ def run(ctx):
                 "hard errors in ~25%%, sizes around BUFSZ (=%d, and BUFSZ∈%s builds of the same istream.c) and around 512/1024; "
                 "non-trivial = distinct scenario in which at least one scripted short count/EINTR/error was actually consumed by a system call" % (B, small),
         "scenario_kinds": kinds,
+        "compressed_tar_branch": zst,
         "script_events_fired": evhist,
         "script_events_consumed": consumed,
         "corpus_scenarios": ncorpus,
@@ -1039,10 +1206,19 @@ def run(ctx):
         "inprocess_scenarios_per_s": round(len(done) / max(t_in, 1e-3), 1),
     })
     return ctx.finish(LEVEL, trusted_extra=[
-        "the OS is modelled as a finite script of per-call outcomes (short count ≥ 1 byte, EINTR, EIO, return 0) followed by calls that complete in full; "
-        "lseek/fsync are not scripted; sizes are unbounded naturals (the harness stays below 2^31)",
-        "modelled: lib/sqfs/src/io/{file.c (POSIX branch), ostream.c, istream.c, unix.c (seek), stream_api.c}, lib/util/src/get_line.c, "
-        "lib/tar/src/record_to_memory.c; stdio inside the tools and libc are exercised only by the tool-level runs"],
+        "the OS is modelled as a finite script of per-call outcomes (short count ≥ 1 byte, EINTR, EIO, return 0) on read / write / pread / pwrite / "
+        "ftruncate, followed by calls that complete in full; lseek, fsync, calloc are not scripted (never fail); sizes are unbounded naturals "
+        "(the harness stays below 2^31 except skip/splice counts up to 2^40, whose clamp is modelled)",
+        "modelled by hand and compared with the code on every run, not verified directly: lib/sqfs/src/io/{file.c (POSIX branch), ostream.c, istream.c, "
+        "unix.c (seek/truncate), stream_api.c}, lib/util/src/get_line.c, lib/tar/src/record_to_memory.c, lib/xfrm/src/{istream.c, ostream.c} "
+        "(codec abstract, precache loop with explicit fuel), lib/tar/src/iterator.c (member stream, head and fail-exit of it_next incl. "
+        "drain_compressed_stream, the wrapping done by tar_open_stream) and the end-of-archive part of read_header.c",
+        "not modelled: decoding of tar header blocks (geometry is an input, the harness checks that read_header decodes it), which branch "
+        "tar_open_stream takes (tar_probe / xfrm_compressor_id_from_magic: answered by the harness via --wrap, branch taken is compared), "
+        "the real codecs, the layers above sqfs_file_t, stdio inside the tools and libc: exercised only by the tool-level runs",
+        "the list of read/write/pread/pwrite/readv/…/sendfile/copy_file_range/splice call sites is taken from the clang AST of the tree on every run "
+        "and must be exactly the four modelled loops (tools/c12_census.py)",
+        "harness/h_c12*.c, harness/shim_io.c, the generators and monitors in tools/checks/c12.py, tools/c12_tools.py"],
         assumptions=["EINTR occurs only finitely often (structure of the script)",
                      "a regular output file is only appended to, so the descriptor position is the end of the file"])
 
